@@ -241,6 +241,44 @@ func TestParserExhaustive(t *testing.T) {
 		}
 	}
 	rec.Exhaustive("7-octet header: every 16-bit reference x 16 (total,seq) pairs")
+	// every string of 0..6 octets over the octets that mean something in a user-data header (lengths and
+	// information-element identifiers: 0..8, 0x24, 0x25, 0xff): every short or near-miss header, every
+	// composite header of other information elements, every header that ends exactly where the content ends
+	alpha := []byte{0, 1, 2, 3, 4, 5, 6, 7, 8, 0x24, 0x25, 0xff}
+	agree := func(in []byte) (ok bool) {
+		defer func() {
+			if recover() != nil {
+				ok = false
+			}
+		}()
+		wr, wt, ws, wp, wok := refParse(in)
+		fk, total, idx, rest, valid := sms.ParseLongSmsContent(string(in))
+		return valid == wok && rest == string(wp) && (!wok || (fk == wr && total == wt && idx == ws))
+	}
+	idx := 0
+	for l := 0; l <= 6; l++ {
+		cnt := 1
+		for i := 0; i < l; i++ {
+			cnt *= len(alpha)
+		}
+		in := make([]byte, l)
+		for x := 0; x < cnt; x++ {
+			idx++
+			if !env.Mine(idx) {
+				continue
+			}
+			y := x
+			for i := 0; i < l; i++ {
+				in[i] = alpha[y%len(alpha)]
+				y /= len(alpha)
+			}
+			n++
+			if !agree(in) {
+				rec.Report(t, "parse", checkParse(ParseCase{vk.Hex(in)}))
+			}
+		}
+	}
+	rec.Exhaustive("every string of 0..6 octets over {0..8, 0x24, 0x25, 0xff}")
 	rec.EvalN(n)
 	rec.NonTrivialConstructed(n)
 	rec.Sample("parse", ParseCase{"0608040102030141"})
@@ -268,15 +306,17 @@ func TestParserExhaustive(t *testing.T) {
 func TestParserRandom(t *testing.T) {
 	rapid.Check(t, func(t *rapid.T) {
 		var in []byte
-		switch rapid.IntRange(0, 3).Draw(t, "shape") {
+		switch rapid.IntRange(0, 5).Draw(t, "shape") {
 		case 0:
 			in = rapid.SliceOfN(rapid.Byte(), 0, 40).Draw(t, "bytes")
 		case 1:
 			in = append([]byte{5, 0, 3}, rapid.SliceOfN(rapid.Byte(), 0, 40).Draw(t, "rest")...)
 		case 2:
 			in = append([]byte{6, 8, 4}, rapid.SliceOfN(rapid.Byte(), 0, 40).Draw(t, "rest")...)
-		default:
+		case 3:
 			in = rapid.SliceOfN(rapid.SampledFrom([]byte{0, 3, 4, 5, 6, 8}), 0, 12).Draw(t, "magicish")
+		default:
+			in = DrawUDH(t)
 		}
 		rec.Eval()
 		if _, _, _, _, ok := refParse(in); ok {
@@ -284,4 +324,38 @@ func TestParserRandom(t *testing.T) {
 		}
 		rec.Report(t, "parse", checkParse(ParseCase{vk.Hex(in)}))
 	})
+}
+
+// DrawUDH draws a user-data header after the grammar of 3GPP TS 23.040 9.2.3.24 - UDHL, then information
+// elements (identifier, length, data) of the identifiers in use (concatenation 8/16 bit, application ports
+// 8/16 bit, national language shift tables, others) with their prescribed or a wrong length - followed by
+// 0..5 payload octets, optionally cut at a drawn point (in particular right after an identifier octet).
+func DrawUDH(t *rapid.T) []byte {
+	ieLen := map[byte]int{0x00: 3, 0x08: 4, 0x04: 2, 0x05: 4, 0x24: 1, 0x25: 1, 0x01: 2, 0x20: 1, 0x0a: 4}
+	ids := []byte{0x00, 0x08, 0x04, 0x05, 0x24, 0x25, 0x01, 0x20, 0x0a}
+	n := rapid.IntRange(1, 3).Draw(t, "ies")
+	var body []byte
+	for i := 0; i < n; i++ {
+		id := rapid.OneOf(rapid.SampledFrom(ids), rapid.SampledFrom(ids), rapid.Byte()).Draw(t, "iei")
+		l, ok := ieLen[id]
+		if !ok {
+			l = rapid.IntRange(0, 6).Draw(t, "iedl")
+		}
+		dl := l + rapid.SampledFrom([]int{0, 0, 0, 0, 1, -1}).Draw(t, "iedlerr")
+		if dl < 0 {
+			dl = 0
+		}
+		body = append(body, id, byte(dl))
+		body = append(body, rapid.SliceOfN(rapid.Byte(), l, l).Draw(t, "ied")...)
+	}
+	udhl := len(body) + rapid.SampledFrom([]int{0, 0, 0, 0, 1, -1, 2}).Draw(t, "udhlerr")
+	if udhl < 0 {
+		udhl = 0
+	}
+	out := append([]byte{byte(udhl)}, body...)
+	out = append(out, rapid.SliceOfN(rapid.Byte(), 0, 5).Draw(t, "payload")...)
+	if rapid.IntRange(0, 2).Draw(t, "cut") == 0 {
+		out = out[:rapid.IntRange(0, len(out)).Draw(t, "cutat")]
+	}
+	return out
 }
